@@ -5,6 +5,8 @@ From Verif Require Import Base.Wire TaxId.Common TaxId.Regimes TaxId.CommonProof
 Import ListNotations.
 Open Scope Z_scope.
 Ltac Zify.zify_post_hook ::= Z.div_mod_to_equations.
+(* conversion: unfold the model's definitions before integer arithmetic (keeps Qed fast) *)
+Local Strategy 100 [Z.add Z.mul Z.sub Z.opp Z.modulo Z.div Z.eqb Z.ltb Z.leb Z.pow dv bZ].
 
 Definition pt_T (c : bytes) : Z := wsum [9; 8; 7; 6; 5; 4; 3; 2; 1] (digs c).
 Definition pt_prefix_ok (c : bytes) : bool := pt_prefix1 (nthb 0 c) || pt_prefix2 (nthb 0 c) (nthb 1 c).
